@@ -121,55 +121,7 @@ func c08(r *core.Run) {
 				"the kept length is the span pushed through the ceil-divide/multiply reduction, with no constant substituted on any path", "on some path the payload length is a constant (clamp) or comes from something other than the decrypted span: padding bytes are kept as payload")
 		})
 		r.Floor("C08.I1", "variable-length strips in decryptChunkData", n, 1)
-		// K2: counting how many chunks / references hold N bytes rounds UP: every division of
-		// the span-derived length by a constant d is (x + d-1) / d
-		nq := 0
-		core.EachInstr(fn, func(_ *ssa.BasicBlock, _ int, in ssa.Instruction) {
-			q, ok := in.(*ssa.BinOp)
-			if !ok || q.Op != token.QUO {
-				return
-			}
-			d, isC := foldedInt(q.Y)
-			if !isC || d <= 1 {
-				return
-			}
-			fromSpan := arithmeticOf(q.X, func(v ssa.Value) bool {
-				c, _ := core.CallOf(v)
-				return c != nil && core.IsCallTo(c, "(encoding/binary.littleEndian).Uint64")
-			})
-			if !fromSpan {
-				return
-			}
-			nq++
-			// total constant offset added to the variable part, in any spelling
-			// (x + (d-1), (x + d) - 1, …)
-			off, v := int64(0), q.X
-			for i := 0; i < 4; i++ {
-				b, isB := v.(*ssa.BinOp)
-				if !isB || (b.Op != token.ADD && b.Op != token.SUB) {
-					break
-				}
-				if k, isK := foldedInt(b.Y); isK {
-					if b.Op == token.ADD {
-						off += k
-					} else {
-						off -= k
-					}
-					v = b.X
-					continue
-				}
-				if k, isK := foldedInt(b.X); isK && b.Op == token.ADD {
-					off += k
-					v = b.Y
-					continue
-				}
-				break
-			}
-			okCeil := off == d-1
-			r.Check("C08.K2", core.Key("C08.K2", fn, "level reduction rounds up"), q.Pos(), okCeil,
-				"the number of children needed for N bytes is ceil(N/d): the dividend is x + (d-1)", fmt.Sprintf("the span-derived length is divided by %d without adding %d first (rounds down): a partly filled last child is not counted and its reference is stripped as padding", d, d-1))
-		})
-		r.Floor("C08.K2", "divisions of the span-derived length in decryptChunkData", nq, 1)
+		levelReductionRule(r, fn, "C08.K2")
 	}
 	// G1 Encrypt / Decrypt padding rules
 	const E = "pkg/encryption.Encryption"
@@ -292,6 +244,12 @@ func c08(r *core.Run) {
 func c09(r *core.Run) {
 	w := r.W
 	const J = "pkg/file/joiner.joiner"
+	if dc := w.Func("pkg/encryption/store", "decryptChunkData"); dc != nil {
+		r.Saw(core.FuncName(dc))
+		levelReductionRule(r, dc, "C09.K2")
+	} else {
+		r.Fatal("unresolved anchor pkg/encryption/store.decryptChunkData")
+	}
 	it := w.Func("pkg/file/joiner", "(*joiner).IterateChunkAddresses")
 	pc := w.Func("pkg/file/joiner", "(*joiner).processChunkAddresses")
 	if it == nil || pc == nil {
@@ -533,4 +491,61 @@ func isDirectSucc(es core.EdgeSet, b *ssa.BasicBlock) bool {
 		}
 	}
 	return false
+}
+
+// levelReductionRule (C08.K2 / C09.K2): counting how many chunks / references hold N bytes
+// rounds UP: every division of the span-derived length by a constant d in decryptChunkData is
+// (x + d-1) / d. The traversal of an encrypted file walks the references that survive this
+// strip: one reference too many (or too few) is a chunk address that was never written (or a
+// written chunk that is not reported).
+func levelReductionRule(r *core.Run, fn *ssa.Function, rule string) {
+	// K2: counting how many chunks / references hold N bytes rounds UP: every division of
+	// the span-derived length by a constant d is (x + d-1) / d
+	nq := 0
+	core.EachInstr(fn, func(_ *ssa.BasicBlock, _ int, in ssa.Instruction) {
+		q, ok := in.(*ssa.BinOp)
+		if !ok || q.Op != token.QUO {
+			return
+		}
+		d, isC := foldedInt(q.Y)
+		if !isC || d <= 1 {
+			return
+		}
+		fromSpan := arithmeticOf(q.X, func(v ssa.Value) bool {
+			c, _ := core.CallOf(v)
+			return c != nil && core.IsCallTo(c, "(encoding/binary.littleEndian).Uint64")
+		})
+		if !fromSpan {
+			return
+		}
+		nq++
+		// total constant offset added to the variable part, in any spelling
+		// (x + (d-1), (x + d) - 1, …)
+		off, v := int64(0), q.X
+		for i := 0; i < 4; i++ {
+			b, isB := v.(*ssa.BinOp)
+			if !isB || (b.Op != token.ADD && b.Op != token.SUB) {
+				break
+			}
+			if k, isK := foldedInt(b.Y); isK {
+				if b.Op == token.ADD {
+					off += k
+				} else {
+					off -= k
+				}
+				v = b.X
+				continue
+			}
+			if k, isK := foldedInt(b.X); isK && b.Op == token.ADD {
+				off += k
+				v = b.Y
+				continue
+			}
+			break
+		}
+		okCeil := off == d-1
+		r.Check(rule, core.Key(rule, fn, "level reduction rounds up"), q.Pos(), okCeil,
+			"the number of children needed for N bytes is ceil(N/d): the dividend is x + (d-1)", fmt.Sprintf("the span-derived length is divided by %d without adding %d first (rounds down): a partly filled last child is not counted and its reference is stripped as padding", d, d-1))
+	})
+	r.Floor(rule, "divisions of the span-derived length in decryptChunkData", nq, 1)
 }
